@@ -89,6 +89,32 @@ def check_result(res, net, conf_pr, sigma_act):
                 da = abs((e["alpha"] - al + math.pi / 2) % math.pi - math.pi / 2)
                 if da > 2e-4 + 1e-5 * (cxx + cyy) / c:
                     dd.append("ellipse of %s: bearing %.6f, eigenvector direction %.6f" % (e["id"], e["alpha"], al))
+        # the standard deviation of an adjusted distance is f' C f with the covariance matrix and the coordinates of the SAME file
+        # (also when the axes are declared inconsistent with the angles: coordinates and covariances must be in one frame)
+        xyz = {p_["id"]: p_ for p_ in res["fixed"]}
+        xyz.update({p_["id"]: p_ for p_ in res["adjusted"]})
+        sig0 = obs_sigma_map(net)
+        for o in res["observations"]:
+            if o["tag"] != "distance" or not isinstance(o.get("stdev"), float):
+                continue
+            if (o["tag"], o.get("from"), o.get("to"), None) not in sig0:
+                continue        # member of a correlated cluster (see the recorded finding on their standard deviations)
+            a_, b_ = xyz.get(o.get("from")), xyz.get(o.get("to"))
+            if not a_ or not b_ or any(c_ not in a_ or c_ not in b_ for c_ in "xy"):
+                continue
+            dx_, dy_ = b_["x"] - a_["x"], b_["y"] - a_["y"]
+            d_ = math.hypot(dx_, dy_)
+            if d_ < 1e-6:
+                continue
+            f_ = [(pos.get((o["from"], "x")), -dx_ / d_), (pos.get((o["from"], "y")), -dy_ / d_), (pos.get((o["to"], "x")), dx_ / d_), (pos.get((o["to"], "y")), dy_ / d_)]
+            f_ = [(i_, v_) for i_, v_ in f_ if i_ is not None]
+            if not f_ or any(abs(i_ - j_) > cov["band"] for i_, _ in f_ for j_, _ in f_):
+                continue
+            var = sum(vi * vj * gama.cov_entry(res, i_, j_) for i_, vi in f_ for j_, vj in f_)
+            want = math.sqrt(max(var, 0.0))
+            if abs(o["stdev"] - want) > 2e-3 * max(want, 1e-3) + 2e-4:
+                dd.append("distance %s->%s: stdev of the adjusted observation %.5g, but coordinates and <cov-mat> of the same file give %.5g "
+                          "(covariances and coordinates in different frames?)" % (o.get("from"), o.get("to"), o["stdev"], want))
         # standard deviations via covariance diagonal are positive
         for i in range(cov["dim"]):
             if gama.cov_entry(res, i, i) < -1e-12:
@@ -147,6 +173,14 @@ def run(ctx):
             net, truth, meta = netgen.make_network(ctx.rng, dim=2, n=3, n_fixed=2, extra=ctx.rng.choice([0.0, 0.0, 0.2]))
             meta["kind"] = "2d-minimal"
         ids = [p["id"] for p in net["points"]]
+        if meta.get("dim", 2) != 1 and ctx.rng.random() < 0.3:
+            # axes declared inconsistent with the orientation of the angles: gama mirrors y internally, every reported number
+            # must still be in the user's frame
+            from checks import c07
+            net.setdefault("attrs", {}).setdefault("axes-xy", "ne")
+            net, _ = c07.t_mirror(ctx.rng, net)        # the same survey described with y mirrored: ne -> nw (left-handed angles kept)
+            truth = {k_: (v_[0], -v_[1]) + tuple(v_[2:]) for k_, v_ in truth.items()}
+            meta["kind"] += "+inconsistent-axes"
         if meta.get("dim", 2) != 1 and ctx.rng.random() < 0.5:
             # a station whose single direction is dropped by the revision, followed by distances of different quality
             st = ctx.rng.choice(ids)
